@@ -181,6 +181,21 @@ pub async fn one_tree<TC: Configuration>(cx: &mut Ctx, r: &mut Rng, batches: Vec
                     cands.push((format!("child{}-label-shortened", i), p4));
                 }
             }
+            // a cousin as anchor: children and membership proof of the off-path child of this node, while the claimed
+            // longest prefix stays on the label's path (the fields are not tied to one another by construction)
+            if let Some(next) = path.get(depth + 1) {
+                for c in [an.left_child, an.right_child].into_iter().flatten() {
+                    if c != *next && m[&c].latest_node.node_type != TreeNodeType::Leaf {
+                        if let Ok(cmp) = az.azks.get_membership_proof::<TC, _>(&az.st, c).await {
+                            let cn = &m[&c].latest_node;
+                            let cch = [child_elem::<TC>(&m, cn.left_child), child_elem::<TC>(&m, cn.right_child)];
+                            for lp in [*a, NodeLabel::root(), c] {
+                                cands.push(("cousin-anchor-free-longest-prefix".into(), NonMembershipProof { label: *x, longest_prefix: lp, longest_prefix_children: cch, longest_prefix_membership_proof: cmp.clone() }));
+                            }
+                        }
+                    }
+                }
+            }
             // child label / claimed prefix carrying a stray bit beyond its length, inside its last byte
             for i in 0..2 {
                 let cl = base.longest_prefix_children[i].label;
